@@ -10,34 +10,34 @@ CHECKS = {
                 text="Every enumerated (a,b) in the scalar alphabet squared, through every pairing entry point and every non-normalised representative, is compared byte-for-byte with the Python textbook pairing e(G1,G2)^(ab); all failures replayable.",
                 note="Python reference model (vlib/ref.py) is the ground truth; inputs outside the alphabet are not covered", ref="4/C01"),
     "C02": dict(engine="A+S", technique="bounded-exhaustive operand alphabets vs Python ints on 4 back ends + exhaustive run of the same templates with 8-bit words",
-                text="All operand pairs of the boundary alphabets - placed both in the value domain and in the internal (Montgomery) residue domain, plus half-modulus limb products for the doubling operations - x all operations x 5 builds (x86-64 assembly BMI2/ADX and baseline, g++ -O2 -DNDEBUG portable 64-bit, clang -Os portable 32-bit, clang -O0) are compared with Python integer arithmetic; exponentiation also with a 768-bit exponent type; the identical template source instantiated with 8-bit words is run on ALL inputs (all pairs mod 4 small primes, all reduction inputs).",
+                text="All operand pairs of the boundary alphabets - placed both in the value domain and in the internal (Montgomery) residue domain, plus half-modulus limb products for the doubling operations - x all operations x 5 builds (x86-64 assembly BMI2/ADX and baseline, g++ -O2 -DNDEBUG portable 64-bit, clang -Os portable 32-bit, clang -O0) are compared with Python integer arithmetic; exponentiation also with a 768-bit exponent type; inversion inputs chosen by their output (stored result and its predecessors under the halving step over the limb-product alphabets); the identical template source instantiated with 8-bit words is run on ALL inputs (all pairs mod 4 small primes, all reduction inputs).",
                 note="small-scope hypothesis for engine S; Python ints are the ground truth; Fq::compare pinned to internal-residue order", ref="4/C02"),
     "C03": dict(engine="A+I", technique="exhaustive differential sweep of limb-product operand spaces across 4 native back ends + interpreted execution of the ARM assembly sources",
-                text="Full Cartesian limb-alphabet products of all 384/256-bit operands through every multi-precision/modular primitive on x86-64 BMI2, x86-64 baseline, portable 64- and 32-bit back ends must give identical digests (bisected to a case on mismatch; one-operand routines also over half-limb / sign-bit limb products); the AArch64/ARMv6-M sources are executed instruction by instruction (any access below the stack pointer is an error: no red zone) on boundary alphabets against integer arithmetic, entered through the binding (callee, argument registers, stack slot, return value) extracted by symbolic tracing of the cross-compiled C++ template specialisations.",
+                text="Full Cartesian limb-alphabet products of all 384/256-bit operands through every multi-precision/modular primitive on x86-64 BMI2, x86-64 baseline, portable 64- and 32-bit back ends must give identical digests (bisected to a case on mismatch; one-operand routines also over half-limb / sign-bit limb products); the AArch64/ARMv6-M sources are executed instruction by instruction (any access below the stack pointer is an error: no red zone) on boundary alphabets against integer arithmetic, entered through the binding (callee, argument registers, stack slot, return value) extracted by symbolic tracing of the cross-compiled C++ template specialisations; the run-time selection of the BMI2/ADX routines is checked under every (BMI2, ADX) answer of CPUID (CPUID faulting): a routine that needs both is selected only when both are reported.",
                 note="ARM results rest on the interpreters in armsim/ (trusted base); 64-bit digest collisions ignored", ref="4/C03"),
     "C04": dict(engine="A", technique="bounded-exhaustive element alphabets x every member x all Frobenius powers x all sparse shapes vs schoolbook quotient-ring arithmetic",
                 text="Every public member of Fq2/Fq6/Fq12 on the full element alphabets (every zero/non-zero support pattern, unit vectors, (+-1, generic) two-sparse elements at every position pair, embedded subfields; all ordered pairs for binary operations, every sparse operand shape, Frobenius powers 0..25 and two large ones, cyclotomic map/squaring/exponentiation) is compared with schoolbook arithmetic in the defining quotient rings on 4 builds (assembly, g++ -O2 -DNDEBUG, clang -Os 32-bit, clang -O0).",
                 note="Python quotient-ring model is the ground truth; inverse/sqrt checked by their defining relations", ref="4/C04"),
     "C05": dict(engine="A", technique="exhaustive enumeration of all ordered point pairs x all Jacobian representative pairs x operations vs the affine chord-and-tangent law",
-                text="All ordered pairs of the point alphabet (identity, subgroup points, points outside the subgroup incl. the order-3 point, negatives, doubles) in all representative pairs go through add/add_mixed/double/negate/equal/conversions (C API and C++ members, 4 builds incl. g++ and -O0); each result is normalised by definition in Python and compared with the group law; every exceptional-case class must be hit.",
+                text="All ordered pairs of the point alphabet (identity, subgroup points, points outside the subgroup incl. the order-3 point, negatives, doubles) in all representative pairs go through add/add_mixed/double/negate/equal/conversions (C API and C++ members, 4 builds incl. g++ and -O0); each result is normalised by definition in Python and compared with the group law; every exceptional-case class must be hit; crafted G1 points whose doubling / mixed-addition intermediates (stored residues of X^2, Y^4, (x2-X1)^2) sit at k q / f.",
                 note="Python affine group law is the ground truth", ref="4/C05"),
     "C06": dict(engine="A", technique="bounded-exhaustive scalar alphabets (all recoding/decomposition boundaries) x bases x every multiplication routine vs Python double-and-add; recoding/decomposition checked as functions",
-                text="Every scalar of S(bits) (incl. 2^bits-j, r-related values, GLV thresholds, base-|x| digit boundaries) x 6 bases x every routine/window/width on 3 builds (clang+assembly, g++ -O2 -DNDEBUG, clang -Os 32-bit) equals Python double-and-add; the w-NAF template runs on ALL 16/24-bit scalars over a toy group; w-NAF digits recombine exactly, stay inside table and buffer; base-|x| digits recombine mod r.",
+                text="Every scalar of S(bits) (incl. 2^bits-j, r-related values, GLV thresholds incl. those where the rounded / floored quotient takes boundary word patterns, base-|x| digit boundaries, scalars as stored words from {0, |x|-1, |x|, 2^63, 2^64-1}) x 6 bases x every routine/window/width on 3 builds (clang+assembly, g++ -O2 -DNDEBUG, clang -Os 32-bit) equals Python double-and-add; the w-NAF template runs on ALL 16/24-bit scalars over a toy group; w-NAF digits recombine exactly, stay inside table and buffer; base-|x| digits recombine mod r.",
                 note="Python double-and-add is the ground truth; eigenvalue-based routines only required on subgroup points", ref="4/C06"),
     "C07": dict(engine="A+E", technique="bounded-exhaustive exponent alphabet x bases x routines vs Python pow; enumeration of all random-source answer sequences with <= 2 deviations",
                 text="All exponents of S(256) x GT bases x 6 exponentiation routes on 3 back ends equal Python pow; group operations on all base pairs; every answer sequence of the random source with at most 2 deviations in the first 12 digit requests (plus tuples hitting y=r-1,r,r+1,0,x^4-1) yields exactly the exact-rejection-sampling y and base^y.",
                 note="uniformity decided functionally (exact rejection sampling), not statistically", ref="4/C07"),
     "C08": dict(engine="B", technique="exhaustive enumeration of all (affine list, prepared list) shapes up to a length bound, each evaluated twice on the same pair arrays",
-                text="Every list of total length 0..3 (4 thorough) over {P1,P2,O}x{Q1,Q2,O} in every split between plain and prepared pairs is evaluated twice in a row on the same arrays (cursor fields pre-filled with garbage) through both product entry points and must equal the model's product of single pairings; the pair count also takes every boundary value 5..9, 15..17, 31..33, 63..65, 100.",
+                text="Every list of total length 0..3 (4 thorough) over {P1,P2,O}x{Q1,Q2,O} in every split between plain and prepared pairs is evaluated twice in a row on the same arrays (cursor fields pre-filled with garbage) through both product entry points and must equal the model's product of single pairings; the pair count also takes EVERY value 5..130 (pure lists) and the boundary values with identity pairs at the start / early / middle / end and as a run.",
                 note="single pairings decided by C01; portable back ends run every 4th list", ref="4/C08"),
     "C09": dict(engine="A", technique="bounded-exhaustive byte-string mutations of every valid encoding (all flag settings x coordinate variants, every identity byte position, full first-byte sweep) against a Python specification of validating decode",
-                text="For every alphabet point and encoding form, all 8 flag settings x coordinate variants (+q per component, stray top bits, no-y x, non-subgroup point, -y, off-curve y), identity strings with one non-zero byte at every position and all 256 first bytes over 3 tails are decoded; accept iff the Python specification accepts, with the same point; unchecked decode agrees on valid input; decoding into re-used destination objects; 4 builds incl. g++ -DNDEBUG and -O0.",
+                text="For every alphabet point and encoding form, all 8 flag settings x coordinate variants (+q per component, stray top bits, no-y x, non-subgroup point, -y, off-curve y), identity strings with one non-zero byte at every position and all 256 first bytes over 3 tails are decoded; accept iff the Python specification accepts, with the same point; unchecked decode agrees on valid input; decoding into re-used destination objects; order-r points of isomorphic curves (uncompressed (u^2 x, u^3 y); compressed G1: crafted x with x^3+4 a non-residue); 4 builds incl. g++ -DNDEBUG and -O0.",
                 note="Python decode_model is the specification; 'greater' flag pinned to the library's internal-residue order", ref="4/C09"),
     "C10": dict(engine="A+E", technique="bounded-exhaustive hash strings vs exact specification; enumeration of all random-source answer sequences (typed by request length) with <= 2 deviations in the first 10 requests",
-                text="Hash strings incl. long try-and-increment miss runs, wrap-around, unreduced values and all top-bit patterns are compared with the exact specification on 3 back ends; every sampling routine is run under every answer sequence of the typed menus with at most 2 deviations and must satisfy the post-conditions (range, non-identity, on curve, subgroup, consistency, determinism, termination); scripted digit streams reach y = r-1, r, r+1, 0 for the base-|x| samplers.",
+                text="Hash strings incl. long try-and-increment miss runs, wrap-around, unreduced values and all top-bit patterns are compared with the exact specification on 3 back ends; every sampling routine is run under every answer sequence of the typed menus with at most 2 deviations and must satisfy the post-conditions (range, non-identity, on curve, subgroup, consistency, determinism, termination); scripted digit streams reach y = r-1, r, r+1, 0 for the base-|x| samplers; hashed x chosen by the stored form of x^3+4 (word patterns).",
                 note="post-conditions only (robust to draw order); subgroup membership via the library's check plus Python on a subset", ref="4/C10"),
     "C11": dict(engine="B", technique="explicit-state search: pure-model BFS over abstract key states + replay of witness histories on the real code + every enabled transition applied and the key invariant evaluated in every successor",
-                text="All abstract key states (kind x {free,fixed(v),hidden}^l) reachable by keygen/qualify/non-delegable/resample/adjust with every permitted attribute list are enumerated by a model BFS; each is rebuilt on the real library from its witness history and every enabled transition is executed; each successor must list exactly the model's free slots (no write past the binding's allocation), satisfy the pairing equations for a0/a1/b_i/bsig, decrypt for its pattern (also the master key), propagate flags and re-randomise. Attribute entries include omitFromKeys with a non-zero id and unreduced ids >= 2r; parameters and master key are re-expressed in another Jacobian representation; adjustments go towards one target of every merge kind; the thorough tier also explores from EVERY history of length <= 2 without state dedup; slot counts up to 65 on witness histories; part of the state space also on the g++ -O2 -DNDEBUG and clang -Os 32-bit builds.",
+                text="All abstract key states (kind x {free,fixed(v),hidden}^l) reachable by keygen/qualify/non-delegable/resample/adjust with every permitted attribute list are enumerated by a model BFS; each is rebuilt on the real library from its witness history and every enabled transition is executed; each successor must list exactly the model's free slots (no write past the binding's allocation), satisfy the pairing equations for a0/a1/b_i/bsig, decrypt for its pattern (also the master key), propagate flags and re-randomise. Attribute entries include omitFromKeys with a non-zero id and unreduced ids >= 2r; parameters and master key are re-expressed in another Jacobian representation; adjustments go towards one target of every merge kind; the thorough tier also explores from EVERY history of length <= 2 without state dedup; slot counts 9, 20 (with and without signatures), 33, 64, 65 on witness histories (every l up to 40 and to 257 at boundaries in the thorough tier); adjustments also with both list headers over one attribute array; part of the state space also on the g++ -O2 -DNDEBUG and clang -Os 32-bit builds.",
                 note="l=2 quick / l=3 thorough, two generic values + special values; dedup by abstract state guarded by multiple witness histories; the pairing inside the invariant is the library's (C01)", ref="4/C11"),
     "C12": dict(engine="B", technique="exhaustive (key state x ciphertext attribute list) matrix on the C11 state graph; exhaustive illegal hidden-slot fills through 3 APIs; single-component tampering",
                 text="For every reachable key state and every ciphertext list of the alphabet, decryption returns the message iff the list equals the key's fixed pattern (mod r); every illegal attempt to give a hidden slot a value through qualifykey / nondelegable_qualifykey / adjust_nondelegable yields a key that opens no ciphertext with that slot set; altering a, b or c alone changes the result. Ciphertext lists include unreduced ids and entries with omitFromKeys set (which encryption must ignore); hidden slots are also produced by an adjustment step before the fill attempts; large slot counts and the g++ / -Os builds on a subset.",
@@ -46,22 +46,22 @@ CHECKS = {
                 text="Every reachable key state signs every extension list of its pattern over free slots for every message of the alphabet via sign / sign_precomputed / attrs=NULL; all must verify (both verify forms); verification must fail for messages different mod r, every other list, hidden/differently-fixed slots, a0+G1, a1+G2; m and m+r verify alike; the signed list verifies under every re-flagging (omitFromKeys) and with unreduced ids (id+r, id+2r), flagged entries with a non-zero id count as list entries; l=3 also in the quick tier; long lists (l=65) and the g++ / -Os builds on a subset.",
                 note="messages are scalars mod r", ref="4/C13"),
     "C14": dict(engine="B", technique="exhaustive ordered pairs and triples of attribute lists; every (parent state, from, to) with both lists permitted; differential against recomputation from scratch",
-                text="adjust_precomputed equals precompute(target) for all ordered list pairs (l=3, incl. hidden entries and ids >= r) and all chains F->M->T; adjust_nondelegable equals direct non-delegable qualification component for component for every reachable parent state and every permitted (from,to), and along chains carried out in place on ONE key object whose spare slot entries hold canary bytes, zeros or a foreign key's valid-looking slots; precomputed encryption decrypts on every state; l=65 lists and the g++ / -Os builds on a subset.",
+                text="adjust_precomputed equals precompute(target) for all ordered list pairs (l=3, incl. hidden entries and ids >= r) and all chains F->M->T; adjust_nondelegable equals direct non-delegable qualification component for component for every reachable parent state and every permitted (from,to), and along chains carried out in place on ONE key object whose spare slot entries hold canary bytes, zeros or a foreign key's valid-looking slots; precomputed encryption decrypts on every state; l=65 lists and the g++ / -Os builds on a subset; every prefix-related (from, to) pair also with both list headers over ONE attribute array (other length / other omit-all flag).",
                 note="group elements compared with the library's projective equality (C05)", ref="4/C14"),
     "C15": dict(engine="B+A", technique="every reachable object x both encodings: exact length accounting with canaries, every off-by-k length, round trip, and every (element position x invalid encoding) corruption",
-                text="Params for l=0..3 with/without signatures, master key, secret keys of every reachable abstract state, ciphertexts, signatures and all LQ-IBE objects are marshalled into exact-size canaried buffers (reported == computed == written), unmarshalled through the Go protocol (checked and unchecked) and re-marshalled byte-identically; length discovery returns -1 for every length off by 1..slot-1; each embedded element position is replaced by each invalid encoding and checked unmarshal must refuse; explicit-state exploration of unmarshal HISTORIES (length <= 3 over valid A, valid B, B with each element invalid, B truncated) into one re-used destination object: the object must equal a fresh object that received the last accepted buffer, in both encodings; correlated corruptions: every adjacent pair of same-group elements replaced by invalid points whose out-of-subgroup components cancel; 4 builds.",
+                text="Params for l=0..3 with/without signatures, master key, secret keys of every reachable abstract state, ciphertexts, signatures and all LQ-IBE objects are marshalled into exact-size canaried buffers (reported == computed == written), unmarshalled through the Go protocol (checked and unchecked) and re-marshalled byte-identically; length discovery returns -1 for every length off by 1..slot-1; each embedded element position is replaced by each invalid encoding and checked unmarshal must refuse; explicit-state exploration of unmarshal HISTORIES (length <= 3 over valid A, valid B, B with each element invalid, B truncated) into one re-used destination object: the object must equal a fresh object that received the last accepted buffer, in both encodings; secret keys with many free slots (20 with / without signatures, 700 and 1300: slot area beyond 64 KiB; every l up to 70 in the thorough tier); correlated corruptions: every adjacent pair of same-group elements replaced by invalid points whose out-of-subgroup components cancel; 4 builds.",
                 note="wire layout taken from the marshal sources; GT members are unvalidated raw bytes", ref="4/C15"),
     "C16": dict(engine="A+E", technique="bounded-exhaustive product identity hashes x master scalars x lengths, plus every random-stream answer sequence with <= 1 (2) deviations, with a recording hash callback",
                 text="For every enumerated (identity hash, master scalar incl. >= r and via unmarshal, key length incl. 0, random stream) the bytes decrypt feeds the hash equal those of encrypt and equal compress(Q)||compress(rP)||e(sQ,rP) recomputed independently (C pairing API; Python model with chosen discrete logs on a subset); keygen = [s]Q; pointer/length pass-through; negatives differ; identity histories: every ordered pair of hashes differing in one byte, computed back to back, gives the model's point of its own argument.",
                 note="hash function is the caller's; pairing decided by C01", ref="4/C16"),
     "C17": dict(engine="E", level="fault_enumeration", technique="exhaustive enumeration of buffer lengths x first bytes x fills x encodings x modes through the binding's allocation protocol under ASan+UBSan on 3 builds; other checks' call sequences replayed under the same sanitizers",
-                text="Every length 1..Lmax x first byte x fill (zeros, ones, valid truncated/extended, each element corrupted) x encoding x mode for the two length-driven parsers, the byte alphabet for all fixed-size objects, every buffer start offset 0..15 for every object kind, and slot counts l = 5..257, run with exact-size heap blocks under AddressSanitizer+UBSan on asm/64-bit/32-bit builds; accepted objects are re-marshalled; the quick call sequences of other properties run once under the same monitor, and those of C04/C05/C07/C08 once more with every argument and result object flush against an inaccessible page (at its end, then at its start), which also monitors the assembly routines.",
+                text="Every length 1..Lmax x first byte x fill (zeros, ones, valid truncated/extended, each element corrupted) x encoding x mode for the two length-driven parsers, the byte alphabet for all fixed-size objects, every buffer start offset 0..15 for every object kind, and EVERY slot count l = 3..40, 63..65 (to 130, 255..257, 700 thorough) with keys fresh from keygen, run with exact-size heap blocks under AddressSanitizer+UBSan on asm/64-bit/32-bit clang builds and a g++ build (GCC's sanitizer run time); a valid object that comes out of unmarshal is used in further calls (resample, qualify, decrypt, sign, encrypt); accepted objects are re-marshalled; the quick call sequences of other properties run once under the same monitor, and those of C04/C05/C07/C08 once more with every argument and result object flush against an inaccessible page (at its end, then at its start), which also monitors the assembly routines.",
                 note="ASan/UBSan and guard pages are the monitor (assembly routines are opaque to the sanitizers, not to guard pages); Go protocol re-implemented in C++", ref="4/C17"),
     "C18": dict(engine="A", technique="table-driven: every public operation x all set partitions of {output, non-restrict same-type inputs} x small operand alphabet, differential against the all-distinct call",
                 text="For each of ~235 operations (incl. hash-to-curve with the hash stored in the result object) (BigInt, FpBase, Fq, Fr, Fq2/6/12, cyclotomic, curve points, scalar multiplications, final exponentiation, C interface) every aliasing pattern permitted by the signature is executed on operands that trigger the shortcuts and must give the bytes of the all-distinct call, on 4 builds (clang -Ofast + assembly, g++ -O2 -DNDEBUG, clang -Os 32-bit, clang -O0).",
                 note="__restrict operands exempt; scheme layer outside the property's layers", ref="4/C18"),
     "C19": dict(engine="A", technique="exhaustive finite table (size/align/offset of every struct member, every exported constant) under 3 word-size configurations + differential call of every exported C function against its C++ operation",
-                text="A generated TU measures sizeof/alignof/offsetof of every member of every C struct and its C++ counterpart and all exported constants under asm, portable-64 (g++), portable-32 (-Os) and -O0 builds, and - by cross-compilation, rows read from the object file - under the ILP32 data models armv6-m, armv7-a, i386 and under aarch64; the exported C functions are listed from the symbol table and each is compared byte-for-byte with the C++ operation on argument alphabets (same random stream).",
+                text="A generated TU measures sizeof/alignof/offsetof of every member of every C struct and its C++ counterpart and all exported constants under asm, portable-64 (g++), portable-32 (-Os) and -O0 builds, and - by cross-compilation, rows read from the object file - under the ILP32 data models armv6-m, armv7-a, i386 and under aarch64; the exported C functions are listed from the symbol table and each is compared byte-for-byte with the C++ operation on argument alphabets (same random stream); pairing_sum against the C++ product for every pair count 0..44; member rows resolved through SFINAE probes (a renamed private member is 'not comparable', not a build failure).",
                 note="C++ side decided by C01-C16", ref="4/C19"),
     "C20": dict(engine="P", technique="preemption-bounded exhaustive schedule exploration of the real code under a serialising scheduler (function-entry hooks), plus write-protection monitor over the library image, symbol audit of every object x configuration and a free-running ThreadSanitizer pass",
                 text="Two real threads (three in the thorough tier) each run one operation of a 47-entry menu (field, curve, pairing, sampling, WKD-IBE, LQ-IBE with two identities) on shared const inputs; every schedule with at most 2 preemptions (3 for small self pairs in the thorough tier) at compiler-inserted function-entry points (depth calibrated per operation) and at the caller's hash callback is executed, each output must equal the sequential result and the shared inputs must be byte-identical afterwards; the library image's writable segments are made read-only while the other properties' call alphabets run, so any store to global state faults (classified by fault address); every object file of 5 build configurations is audited for external references; the same bodies run free on 16 threads under ThreadSanitizer.",
